@@ -243,6 +243,9 @@ func C19(ctx *core.Ctx, r *core.Report) {
 	xmlIO := scopeFuncs(ctx, "nodeutil", "xml_rdr.go", "xml_wtr.go", "xml_wtr2.go")
 	floatTextExact(ctx, r, xmlIO, 2)
 	definitionModuleOriginal(ctx, r, xmlIO, 8)
+	c19DecoderStrict(ctx, r)
+	c19KeysFoundIndependently(ctx, r)
+	c19CarriageReturnEscaped(ctx, r)
 }
 
 // storedToCaptured: the error is assigned to a variable of the enclosing function (closure result pattern).
